@@ -702,6 +702,7 @@ func gen(r *hx.Rng, n int, tier string) []string {
 			lines = append(lines, fmt.Sprintf("C15|S|HK|%s|%s|-|%s|16", h, hx.H(r.Bytes(ks)), hx.H(r.Bytes(5))))
 		}
 	}
+	lines = append(lines, genLong(r, tier)...) // directed long inputs (long.go)
 	for c := 0; c < n; c++ {
 		switch x := r.Intn(100); {
 		case x < 40: // subtle constructors: every hash, every key size
